@@ -10,7 +10,7 @@ from .ir import walk, strip, path, path_vars, show, const_eval, callee_name
 
 
 # ---------------------------------------------------------------- solver
-def forward(g, init, transfer, join, edge=None, widen=None, max_iter=100000):
+def forward(g, init, transfer, join, edge=None, widen=None, max_iter=100000, narrow=0):
     """Forward dataflow. States are arbitrary values; None = unreachable.
     transfer(node, state) -> state after node
     edge(node, label, state) -> state on that out-edge (or None = infeasible)
@@ -22,6 +22,7 @@ def forward(g, init, transfer, join, edge=None, widen=None, max_iter=100000):
     work = set([g.entry.id])
     it = 0
     visits = {}
+    heads = set(lp.head for lp in g.loops)
     while work:
         it += 1
         if it > max_iter:
@@ -45,13 +46,43 @@ def forward(g, init, transfer, join, edge=None, widen=None, max_iter=100000):
                 new = so
             else:
                 new = join(old, so)
-                if widen is not None and g.nodes[t].kind == 'join':
+                if widen is not None and t in heads:
                     visits[t] = visits.get(t, 0) + 1
                     if visits[t] > 3:
-                        new = widen(old, new)
+                        new = widen(old, new, t)
             if old is None or new != old:
                 IN[t] = new
                 work.add(t)
+    # descending (narrowing) passes from the post-fixpoint: recompute each IN as the plain join of its
+    # incoming edge states; sound because the starting point over-approximates every reachable state
+    for _ in range(narrow if widen is not None else 0):
+        changed = False
+        for n in order:
+            node = g.nodes[n]
+            if n != g.entry.id:
+                acc = None
+                for (p_, lab) in node.pred:
+                    o = OUT.get(p_)
+                    if o is None:
+                        continue
+                    so = edge(g.nodes[p_], lab, o) if edge is not None else o
+                    if so is None:
+                        continue
+                    acc = so if acc is None else join(acc, so)
+                if acc is None:
+                    continue
+                if acc != IN.get(n):
+                    IN[n] = acc
+                    changed = True
+            s = IN.get(n)
+            if s is None:
+                continue
+            o = transfer(node, s)
+            if o != OUT.get(n):
+                OUT[n] = o
+                changed = True
+        if not changed:
+            break
     return IN, OUT
 
 
@@ -436,3 +467,55 @@ def lines_of_path(g, p):
         if l and (not out or out[-1] != l):
             out.append(l)
     return out
+
+
+# ---------------------------------------------------------------- bounded disjunctive lifting
+def lift_disjunctive(transfer, join, edge, K=6):
+    """Lift a dict-state analysis to sets of at most K states (trace partitioning light):
+    keeps correlations such as "found != 0 <=> slot emptied" across a join.  States are dicts;
+    a lifted state is a tuple of frozenset(items)."""
+    def freeze(d):
+        return frozenset(d.items())
+
+    def thaw(f):
+        return dict(f)
+
+    def norm(states):
+        uniq = []
+        seen = set()
+        for st in states:
+            if st not in seen:
+                seen.add(st)
+                uniq.append(st)
+        if len(uniq) > K:
+            acc = thaw(uniq[0])
+            for st in uniq[1:]:
+                acc = join(acc, thaw(st))
+            return (freeze(acc),)
+        return tuple(sorted(uniq, key=lambda f: sorted(map(str, f))))
+
+    def ltr(node, S):
+        return norm([freeze(transfer(node, thaw(st))) for st in S])
+
+    def ljoin(A, B):
+        return norm(list(A) + list(B))
+
+    def ledge(node, lab, S):
+        out = []
+        for st in S:
+            r = edge(node, lab, thaw(st)) if edge is not None else thaw(st)
+            if r is not None:
+                out.append(freeze(r))
+        if not out:
+            return None
+        return norm(out)
+
+    def collapse(S):
+        """single dict over-approximating the disjunction"""
+        if not S:
+            return None
+        acc = thaw(S[0])
+        for st in S[1:]:
+            acc = join(acc, thaw(st))
+        return acc
+    return ltr, ljoin, ledge, collapse, freeze
